@@ -65,6 +65,10 @@ theorem limbsVal_eq_ofLimbs (w : Nat) (ls : List Nat) : GV.Field.limbsVal w ls =
   | nil => rfl
   | cons l ls ih => simp only [GV.Field.limbsVal, ofLimbs, ih]
 
+theorem ofLimbs_single (w r : Nat) : ofLimbs w [r] = r := by
+  show r + 2 ^ w * 0 = r
+  omega
+
 theorem chunks_take_length (wb : Nat) : ∀ n (b : List UInt8), ∀ c ∈ chunks wb n b, c.length ≤ wb := by
   intro n
   induction n with
@@ -103,5 +107,18 @@ theorem beToNat_natToBE_of_lt (k v : Nat) (h : v < 256 ^ k) : beToNat (natToBE k
 
 theorem leToNat_natToLE_of_lt (k v : Nat) (h : v < 256 ^ k) : leToNat (natToLE k v) = v := by
   rw [leToNat_natToLE, Nat.mod_eq_of_lt h]
+
+end GV.Conv
+
+namespace GV.Conv
+open GV.Field
+
+/-- `toMont v = v·R mod q` (used where the Go text computes the Montgomery form by a shift and a remainder: koalabear, babybear) -/
+theorem toMont_eq_mulR (p : Params) (h : p.OK) (v : Nat) (hv : v < p.q) : toMont p v = (v * p.R) % p.q := by
+  have hq : 0 < p.q := by omega
+  apply abs_inj p h _ _ (toMont_lt p h v hv) (Nat.mod_lt _ hq)
+  rw [abs_toMont p h v hv, eq_comm, abs_eq_iff p h, ZMod.natCast_mod]
+  push_cast
+  rfl
 
 end GV.Conv
